@@ -220,6 +220,7 @@ func runRIO(args []string) error {
 				return out, "openerr:" + err.Error()
 			}
 			defer r.Close()
+			defer r.Close() // (closed twice)
 			for i := 0; i < 100000; i++ {
 				if len(prog) > 0 && prog[i%len(prog)] == 0 {
 					if err := r.SkipNext(); err != nil {
